@@ -248,6 +248,21 @@ def invariants(chk: Check, n):
         again = cols_of(tt.make_users_data(covariates=cov, seed=seed, n_users=nu, **p))
         if any(not np.array_equal(again[x], u[x]) for x in want_cols):
             chk.fail("the same seed gives different data on a second call", dict(input=inp))
+        # a returned frame belongs to the caller: changing it in place must not reach the next call with the same seed
+        for rt in ("pandas", "polars"):
+            d1 = tt.make_users_data(covariates=cov, seed=seed, n_users=nu, return_type=rt, **p)
+            if rt == "pandas":
+                d1["revenue"] = -1.0
+                d1.loc[d1["variant"] == 1, "orders"] = 99
+                d1.drop(columns=["sessions"], inplace=True)
+            else:
+                import polars as pl
+                d1.replace_column(d1.get_column_index("revenue"), pl.Series("revenue", [-1.0] * d1.height))
+                d1.insert_column(0, pl.Series("extra", [0] * d1.height))
+            d2 = cols_of(tt.make_users_data(covariates=cov, seed=seed, n_users=nu, return_type=rt, **p))
+            if list(d2) != want_cols or any(not np.array_equal(d2[x], u[x]) for x in want_cols):
+                chk.fail("the same seed gives different data after a previously returned frame was changed in place",
+                         dict(input=inp, return_type=rt, columns=list(d2)))
         # a SeedSequence is a documented seed type: the SAME object passed again must give the same data, for every
         # return type and for users vs sessions (numpy's default_rng does not consume a SeedSequence)
         ss = np.random.SeedSequence(seed)
@@ -325,16 +340,25 @@ def calibration(chk: Check, n):
         want = p["ratio"] / (1 + p["ratio"])
         if abs(share - want) > 7 * math.sqrt(want * (1 - want) / nu):
             chk.fail("treatment share is not ratio/(1+ratio)", dict(input=inp, got=share, expected=want))
-        for col, up in (("sessions", p["sessions_uplift"]), ("orders", p["orders_uplift"]), ("revenue", p["revenue_uplift"])):
-            x = d[col].to_numpy().astype(float)
-            a, b = x[v == 1], x[v == 0]
-            if len(a) < 100 or len(b) < 100 or b.mean() == 0:
-                continue
-            rel = a.mean() / b.mean() - 1
-            se = math.sqrt(a.var() / len(a) / b.mean() ** 2 + a.mean() ** 2 * b.var() / len(b) / b.mean() ** 4)
-            if abs(rel - up) > 7 * se + 1e-9:
-                chk.fail(f"the relative difference of {col} is not the requested uplift (7-sigma band)",
-                         dict(input=inp, got=rel, expected=up, se=se))
+        # sessions data of the same parameters, summed per user: the same uplifts must appear
+        sd = tt.make_sessions_data(seed=seed + 1, n_users=nu, **p)
+        su = sd["user"].to_numpy()
+        per_user = {"variant": np.zeros(nu), "sessions": np.bincount(su, minlength=nu).astype(float),
+                    "orders": np.bincount(su, weights=sd["orders"].to_numpy().astype(float), minlength=nu),
+                    "revenue": np.bincount(su, weights=sd["revenue"].to_numpy().astype(float), minlength=nu)}
+        per_user["variant"][su] = sd["variant"].to_numpy()
+        for which, frame, vv in (("users", {c: d[c].to_numpy().astype(float) for c in ("sessions", "orders", "revenue")}, v),
+                                 ("sessions", per_user, per_user["variant"])):
+            for col, up in (("sessions", p["sessions_uplift"]), ("orders", p["orders_uplift"]), ("revenue", p["revenue_uplift"])):
+                x = frame[col]
+                a, b = x[vv == 1], x[vv == 0]
+                if len(a) < 100 or len(b) < 100 or b.mean() == 0:
+                    continue
+                rel = a.mean() / b.mean() - 1
+                se = math.sqrt(a.var() / len(a) / b.mean() ** 2 + a.mean() ** 2 * b.var() / len(b) / b.mean() ** 4)
+                if abs(rel - up) > 7 * se + 1e-9:
+                    chk.fail(f"{which} data: the relative difference of {col} is not the requested uplift (7-sigma band)",
+                             dict(input=inp, got=rel, expected=up, se=se))
 
 
 def main():
@@ -365,6 +389,7 @@ def main():
 
     def extended():
         invariants(chk, 120)
+        calibration(chk, 8)
 
     chk.finish(extended_search=extended)
 
